@@ -220,6 +220,15 @@ def run_profile(pid, tier, p, kind, base, seed, workers):
         out.update(scripts=len(ok_scripts), matched=0, mismatched=0, roots=0, panics=info["panics"],
                    nontrivial=nontriv, by_field={}, steps=sum(len(s) for s in ok_scripts))
     violations, stats = judge(pid, d, p, ok_scripts, cand, kind)
+    if out["panics"]:
+        # a panic inside the cache (its own assertions included) on a valid sequence of calls of this property's
+        # workload: the run could not be judged against the specification, the panic itself is the finding
+        first = None
+        if kind == "edge":
+            first = next((m for m in rep.get("mismatches", []) if m.get("kind") == "panic"), None)
+        violations.append({"kind": "predicate", "bad": "panic_in_cache_code", "profile": p["name"],
+                           "ops": first["ops"] if first else [], "observed": (first or {}).get("message", f"{out['panics']} runs panicked"),
+                           "op": {"name": "panic"}})
     out.update(stats)
     out["wall"] = round(time.time() - t0, 1)
     sample = None
@@ -358,6 +367,8 @@ def replay(pid, path):
     rep, trace = mem.replay(d, p, scripts, "replay", sample=1)
     ok, cand = mem.split_trace(trace)
     violations, stats = judge(pid, d, p, [], ok + cand, "replay")
+    if rep.get("panics") and not violations:
+        violations = [dict(v, observed="the recorded script still panics inside the cache")]
     if violations:
         out = core.write_replay(pid, {"property": pid, "engine": "mem", "violation": violations[0]})
         print(f"VIOLATION property={pid} replay={out}")
